@@ -231,7 +231,7 @@ def numeric_case(draw):
     return {"db": draw(st.one_of(st.floats(0, 60), st.sampled_from([0.0, 3.0, 10.0]))),
             "dec": draw(st.one_of(st.floats(0, 1, exclude_max=True), st.sampled_from([0.0, 0.5, 0.999999]))),
             "bad": draw(st.sampled_from([1.0, 1.5, -0.1, 2])),
-            "n": draw(st.integers(2, 8)), "seed": draw(st.integers(0, 2 ** 31 - 1)),
+            "n": draw(st.sampled_from([1, 1, 2, 3, 4, 5, 6, 7, 8, 20])), "seed": draw(st.integers(0, 2 ** 31 - 1)),
             "badseed": draw(st.sampled_from([1.5, "a", True, [1]]))}
 
 
